@@ -1,5 +1,6 @@
 import Ucfg.Lemmas.Forest
 import Ucfg.Lemmas.ForestMerge
+import Ucfg.Lemmas.ForestBuild
 /-!
   C10 — merging copies: the source is untouched and nothing is shared.
 
@@ -23,7 +24,11 @@ import Ucfg.Lemmas.ForestMerge
   * `copy_separates_old_heap` / `merge_into_copy_leaves_everything_else`: the hypothesis is met by construction for a
     config that was itself made by copying (NewFrom of a config, the clone Merge stores): everything that existed
     before the copy is a separated set, so merging anything into the copy leaves *every* older node untouched.
-  Not proved: the embedded-config path of normalize, and merges in which a null meets a value (`mergeH` answers `none`
+  * `mergeSrc_leaves_everything_else` / `newFrom_leaves_everything_untouched`: Merge and NewFrom of a source VALUE - plain
+    data with existing configs embedded at any position (`Src`, `buildH`: merge.go normalize*, normalizeValue copies an
+    embedded config) - leave every node that existed, the embedded configs included, identical: what is built consists of
+    new nodes listing new nodes only (`buildH_ok`), so the old heap is a separated set when the merge starts.
+  Not proved: merges in which a null meets a value (`mergeH` answers `none`
   there - which value wins is the content model's business, Model/Merge.lean).
 -/
 namespace Ucfg.C10
@@ -159,6 +164,79 @@ theorem merge_into_copy_leaves_everything_else (n m cf : Nat) (pol : ArrPol) (h 
   rw [keep i hi]
   obtain ⟨t, rfl, _⟩ := cpy_good n 0 h id p f h1 cp (Nat.zero_le _) hc
   exact List.getElem?_append_left hi
+
+/-- what `buildH` makes of a source value leaves the old heap a separated set -/
+theorem build_separates_old_heap (cf : Nat) (h h1 : Heap) (s : Src) (p : Option Id) (f : String) (id : Id)
+    (hb : buildH cf h s p f = some (h1, id)) :
+    Sep (fun i : Nat => i < h.length) h1 ∧ ¬ (id < h.length) ∧ h.length ≤ h1.length ∧
+      (∀ i, i < h.length → h1[i]? = h[i]?) := by
+  have ok := buildH_ok cf s h p f h1 id hb
+  refine ⟨?_, by rw [ok.id_eq]; exact Nat.lt_irrefl _, ok.ext.len, fun i hi => ok.ext.old hi⟩
+  intro x nd hx hnx c hc
+  exact Nat.not_lt.mpr (ok.fresh x nd (Nat.le_of_not_lt hnx) hx c hc)
+
+/-- Merge(value) into a config that is not part of the value: every node that existed apart from the destination's own
+tree - the configs embedded in the value, any third config - is identical afterwards.  `S` is any separated set the
+destination is outside of; for a value without a directly given config it can be taken to be everything but the
+destination's tree. -/
+theorem mergeSrc_leaves_separated_untouched (S : Id → Prop) (n cf : Nat) (pol : ArrPol) (h h' : Heap) (to : Id) (src : Src)
+    (hS : ∀ i : Nat, S i → i < h.length) (hsep : Sep S h) (hto : ¬ S to)
+    (he : mergeSrcH n cf pol h to src = some h') : ∀ i, S i → h'[i]? = h[i]? := by
+  cases src with
+  | reg frm => exact (merge_leaves_separated_untouched S n cf pol h h' to frm hS hsep hto he).1
+  | nil | prim _ _ | arr _ | map _ =>
+    all_goals
+      simp only [mergeSrcH] at he
+      cases hb : buildH cf h _ none "" with
+      | none => rw [hb] at he; cases he
+      | some r =>
+        obtain ⟨h1, frm⟩ := r
+        rw [hb] at he
+        simp only at he
+        have ok := buildH_ok cf _ h none "" h1 frm hb
+        -- the set stays separated: the new nodes list new nodes only
+        have hsep1 : Sep S h1 := by
+          intro x nd hx hnx c hc hSc
+          by_cases hlt : x < h.length
+          · rw [ok.ext.old hlt] at hx
+            exact hsep x nd hx hnx c hc hSc
+          · have := ok.fresh x nd (Nat.le_of_not_lt hlt) hx c hc
+            exact absurd (hS c hSc) (Nat.not_lt.mpr this)
+        have hS1 : ∀ i : Nat, S i → i < h1.length := fun i hi => Nat.lt_of_lt_of_le (hS i hi) ok.ext.len
+        intro i hi
+        rw [(merge_leaves_separated_untouched S n cf pol h1 h' to frm hS1 hsep1 hto he).1 i hi]
+        exact ok.ext.old (hS i hi)
+
+/-- NewFrom(value): nothing that existed changes - not the configs embedded in the value, nothing else -/
+theorem newFrom_leaves_everything_untouched (n cf : Nat) (pol : ArrPol) (h h' : Heap) (src : Src) (root : Id)
+    (he : newFromH n cf pol h src = some (h', root)) : ∀ i, i < h.length → h'[i]? = h[i]? := by
+  unfold newFromH at he
+  cases hm : mergeSrcH n cf pol (h ++ [⟨none, "", .sub [] []⟩]) h.length src with
+  | none => rw [hm] at he; cases he
+  | some h2 =>
+    rw [hm] at he
+    simp only [Option.some.injEq, Prod.mk.injEq] at he
+    obtain ⟨rfl, _⟩ := he
+    have hsep : Sep (fun i : Nat => i < h.length) (h ++ [(⟨none, "", .sub [] []⟩ : Node)]) := by
+      intro x nd hx hnx c hc
+      have hge : h.length ≤ x := Nat.le_of_not_lt hnx
+      rw [List.getElem?_append_right hge] at hx
+      cases hxi : x - h.length with
+      | zero =>
+        rw [hxi] at hx
+        simp only [List.getElem?_cons_zero, Option.some.injEq] at hx
+        subst hx
+        simp [Body.children] at hc
+      | succ k => rw [hxi] at hx; simp at hx
+    intro i hi
+    rw [mergeSrc_leaves_separated_untouched (fun i : Nat => i < h.length) n cf pol _ h2 h.length src
+      (fun i hi => by simp; omega) hsep (Nat.lt_irrefl _) hm i hi]
+    exact List.getElem?_append_left hi
+
+/-- non-vacuity: NewFrom of `{k: <config 0>, n: 1}` copies config 0 (`{a: 7}`) and leaves it alone -/
+example : (newFromH 20 20 .merge [⟨none, "", .sub [("a", 1)] []⟩, ⟨some 0, "a", .prim "int" "7"⟩]
+    (.map [("k", .reg 0), ("n", .prim "int" "1")])).map (fun r => (r.1.length, r.1[0]?, r.1[1]?)) =
+    some (10, some ⟨none, "", .sub [("a", 1)] []⟩, some ⟨some 0, "a", .prim "int" "7"⟩) := by decide
 
 /-- worked example: `{a: {x: 1}}` (nodes 0-2) merged from `{a: {y: 2}, l: [3]}` (nodes 3-7); `S` is the source's tree -/
 def exHeap : Heap :=
